@@ -87,12 +87,13 @@ def ltZero (t : F32) : Bool :=
   | _ => false
 
 /-- flags byte and time difference of an entry: returns (flags, new offset, new cumulative time) -/
-def scanHeader (p : Plan) (off timeS : Nat) : R (Nat × Nat × Nat) := do
-  if off ≥ p.buf.length then throw .eparse
-  let flags ← rd p.buf off
-  let (diff, off) ← (parseVaruint32 p.buf p.buf.length (off + 1)).toR
-  if (diff + timeS) % 4294967296 < timeS then throw .eoverflow
-  pure (flags, off, timeS + diff)
+def scanHeader (p : Plan) (off timeS : Nat) : R (Nat × Nat × Nat) :=
+  if off ≥ p.buf.length then .error .eparse
+  else do
+    let flags ← rd p.buf off
+    let (diff, off') ← (parseVaruint32 p.buf p.buf.length (off + 1)).toR
+    if (diff + timeS) % 4294967296 < timeS then .error .eoverflow
+    else pure (flags, off', timeS + diff)
 
 /-- the action in force: an encoded 0 means "same as before" -/
 def resolveAction (flags prev : Nat) : Nat :=
